@@ -23,12 +23,38 @@ def children_lists(py: PyModel) -> Tuple[Set[str], Set[str]]:
     fn = py.func("FortranBase.children")
     lists: Set[str] = set()
     singles: Set[str] = set()
+    def local_value(name: str):
+        for st in ast.walk(fn):
+            if isinstance(st, ast.Assign) and any(isinstance(t, ast.Name) and t.id == name for t in st.targets):
+                v = py.eval_const(st.value, py.module_env(py.module_of(fn)))
+                if isinstance(v, (list, tuple)):
+                    return [x for x in v if isinstance(x, str)]
+        return []
     for c in py.walk_calls(fn):
         if call_name(c) == "self.iterator":
-            lists |= {a.value for a in c.args if isinstance(a, ast.Constant)}
-    for st in ast.walk(fn):
-        if isinstance(st, ast.Assign) and isinstance(st.value, ast.List):
-            singles |= {e.value for e in st.value.elts if isinstance(e, ast.Constant)}
+            for a in c.args:
+                if isinstance(a, ast.Constant):
+                    lists.add(a.value)
+                elif isinstance(a, ast.Starred) and isinstance(a.value, ast.Name):      # self.iterator(*names)
+                    lists |= set(local_value(a.value.id))
+                elif isinstance(a, ast.Starred):
+                    v = py.eval_const(a.value, py.module_env(py.module_of(fn)))
+                    if isinstance(v, (list, tuple)):
+                        lists |= {x for x in v if isinstance(x, str)}
+    # single-valued children: the names over which `getattr(self, <name>, None)` is evaluated
+    for g in ast.walk(fn):
+        if isinstance(g, (ast.GeneratorExp, ast.ListComp)) and any(isinstance(c, ast.Call) and call_name(c) == "getattr" for c in ast.walk(g.elt)):
+            it = g.generators[0].iter
+            if isinstance(it, ast.Name):
+                singles |= set(local_value(it.id))
+            else:
+                v = py.eval_const(it, py.module_env(py.module_of(fn)))
+                if isinstance(v, (list, tuple)):
+                    singles |= {x for x in v if isinstance(x, str)}
+    if not singles:
+        for st in ast.walk(fn):
+            if isinstance(st, ast.Assign) and isinstance(st.value, (ast.List, ast.Tuple)):
+                singles |= {e.value for e in st.value.elts if isinstance(e, ast.Constant)}
     if len(lists) < 10 or not singles:
         raise AnalysisError("FortranBase.children: could not extract the child collections")
     return lists, singles
